@@ -648,6 +648,10 @@ class SamplingMethod(DirectMethod):
                 opti.subject_to(e, args["scale"], meta=meta)
 
     def add_inf_constraints(self, stage, opti, c, k, l, meta):
+        if not MX(c).is_scalar():
+            # The certificate bounds the Bernstein coefficients of one polynomial:
+            # entries of a vector-valued operand would be paired with coefficients instead of with time
+            raise Exception("A constraint with grid='inf' must be scalar-valued, got shape %s." % str(MX(c).shape))
         # Query the discretization method used for polynomial coefficients
         #   interpretation: state ~= coeff * [t^0;t^1;t^2;...]
         #                    t is physical time, but starting at 0 at the beginning of the interval
